@@ -130,14 +130,17 @@ type State struct {
 type retList struct {
 	fr   *Frame
 	call ssa.Value
-	val  Ref
+	vals []Ref
 	next *retList
 }
 
-func (s State) ret(fr *Frame, call ssa.Value) (Ref, bool) {
+func (s State) ret(fr *Frame, call ssa.Value, idx int) (Ref, bool) {
 	for r := s.rets; r != nil; r = r.next {
 		if r.fr == fr && r.call == call {
-			return r.val, true
+			if idx < len(r.vals) && r.vals[idx].V != nil {
+				return r.vals[idx], true
+			}
+			return Ref{}, false
 		}
 	}
 	return Ref{}, false
@@ -709,9 +712,19 @@ func (t *Tracer) Resolve(fr *Frame, v ssa.Value) Ref {
 			v = x.X
 			continue
 		case *ssa.Call:
-			if rv, ok := t.cur.ret(fr, x); ok && rv.V != nil {
-				fr, v = rv.Fr, rv.V
-				continue
+			if rv, ok := t.cur.ret(fr, x, 0); ok && rv.V != nil && x.Type() != nil {
+				if _, isTuple := x.Type().(*types.Tuple); !isTuple {
+					fr, v = rv.Fr, rv.V
+					continue
+				}
+			}
+			return Ref{fr, v}
+		case *ssa.Extract:
+			if call, ok := x.Tuple.(*ssa.Call); ok {
+				if rv, ok := t.cur.ret(fr, call, x.Index); ok {
+					fr, v = rv.Fr, rv.V
+					continue
+				}
 			}
 			return Ref{fr, v}
 		case *ssa.Phi:
@@ -1031,10 +1044,10 @@ func (t *Tracer) foldIntD(fr *Frame, v ssa.Value, depth int) (int64, bool) {
 // withRet records the (single) value an inlined call returned on this path.
 func (t *Tracer) withRet(st State, fr *Frame, c ssa.CallInstruction, rets []Ref) State {
 	v, ok := c.(ssa.Value)
-	if !ok || len(rets) != 1 || rets[0].V == nil {
+	if !ok || len(rets) == 0 {
 		return st
 	}
-	st.rets = &retList{fr: fr, call: v, val: rets[0], next: st.rets}
+	st.rets = &retList{fr: fr, call: v, vals: rets, next: st.rets}
 	return st
 }
 
@@ -1072,6 +1085,19 @@ func (t *Tracer) interesting(f *ssa.Function, depth int) (res bool) {
 				}
 				if _, ok := in.(*ssa.If); ok && t.Spec.Eval != nil {
 					return true // constant propagation may decide branches inside the helper
+				}
+				// a predicate helper: its returned expression is a decision of the caller
+				if r, ok := in.(*ssa.Return); ok && len(r.Results) == 1 && t.Spec.Branch != nil {
+					switch r.Results[0].(type) {
+					case *ssa.BinOp, *ssa.UnOp:
+						fake := &ssa.If{Cond: r.Results[0]}
+						if len(t.Spec.Branch(t, fr, fake, true)) > 0 || len(t.Spec.Branch(t, fr, fake, false)) > 0 {
+							return true
+						}
+						if t.Spec.Eval != nil {
+							return true
+						}
+					}
 				}
 				if i, ok := in.(*ssa.If); ok && t.Spec.Branch != nil {
 					if len(t.Spec.Branch(t, fr, i, true)) > 0 || len(t.Spec.Branch(t, fr, i, false)) > 0 {
